@@ -1416,6 +1416,17 @@ def corr_validators(seed, tier):
             pp.fit(two[:nfit], ["time"])
             reqs.append({"fn": "guards", "alpha": 0, "lenX": ntr, "nData": nfit})
             exps.append(("length", _status(pp.transform, two[:ntr])))
+    # rotators: more modes requested than the fitted model has
+    Xr = da2d(rng.normal(size=(30, 6)), "time", "x")
+    Yr = da2d(rng.normal(size=(30, 5)), "time", "y")
+    for n_model in (2, 3):
+        me = xe.single.EOF(n_modes=n_model, solver="full").fit(Xr, "time")
+        mc = xe.cross.MCA(n_modes=n_model, solver="full", use_pca=False).fit(Xr, Yr, "time")
+        for n_rot in (2, 3, 4):
+            reqs.append({"fn": "guards", "alpha": 0, "lenX": 1, "nData": 1, "nModes": n_rot, "nModel": n_model})
+            exps.append(("rot_single", _status(lambda k=n_rot, m=me: xe.single.EOFRotator(n_modes=k).fit(m))))
+            reqs.append({"fn": "guards", "alpha": 0, "lenX": 1, "nData": 1, "nModes": n_rot, "nModel": n_model})
+            exps.append(("rot_cross", _status(lambda k=n_rot, m=mc: xe.cross.MCARotator(n_modes=k).fit(m))))
     for req, (which, st), ans in zip(reqs, exps, ask(reqs)):
         R.cmp("guard_" + which, ans[which] == st, req, ans, st)
     return R
